@@ -149,3 +149,124 @@ def conn_log(rng):
     snaps = [["sleep", rng.choice([0.0, 0.05, 0.1, 0.33, 1.0])] if i % 2 == 0 else ["snap"] for i in range(2 * rng.randint(2, 12))]
     spec["threads"].append(snaps)
     return spec
+
+
+# ------------------------------------------------------------------------------------------------ API level
+GROUPS = {"BASIC", "METAINFO", "SCENENAME", "INPNAME", "RDSINFO", "FMRDSINFO"}
+
+
+def _value_for(rng, T, f):
+    from .props.c03 import value_for
+    return value_for(rng, T, f, undecodable_ok=False)
+
+
+def device_table(rng, T, present, p_answer=0.8):
+    """scripted answers of a synthetic receiver: a random subset of the functions of the present subunits, multi-value groups answered
+    with several member lines"""
+    table = {}
+    by_id = {c["id"]: c for c in T["classes"]}
+    for sid in present:
+        c = by_id[sid]
+        groups = {}
+        for f in c["fns"]:
+            if not f["get"] or f["name"] == "AVAIL":
+                continue
+            if rng.random() > p_answer:
+                continue
+            v = _value_for(rng, T, f)
+            q = f["init"] or f["name"]
+            groups.setdefault(q, []).append(f"@{sid}:{f['name']}={v}")
+            if f["init"] and rng.random() < 0.5:
+                table[f"@{sid}:{f['name']}=?"] = [f"@{sid}:{f['name']}={v}"]
+        for q, lines in groups.items():
+            rng.shuffle(lines)
+            table[f"@{sid}:{q}=?"] = lines
+    return table
+
+
+def api_init(rng, T, recorded=None):
+    """C07/C14 flavour: a full YncaApi.initialize() against a synthetic or recorded receiver"""
+    if recorded:
+        dev = {"type": "recorded", "name": recorded, "latency": rng.choice([0.0, 0.02, 0.06, 0.099, 0.15, 0.3])}
+        if rng.random() < 0.3:
+            dev["latency"] = {"kind": "uniform", "lo": 0.0, "hi": rng.choice([0.1, 0.4]), "seed": rng.randrange(10 ** 6)}
+        return {"kind": "api_init", "device": dev, "after": [["dump"], ["close"]], "final_wait": 6}
+    optional = [s for s in T["consts"]["subunits"] if s != "SYS"]
+    k = rng.choice([0, 1, 2, 3, 5, 8, len(optional)])
+    present = sorted(rng.sample(optional, k))
+    avail = {s: rng.choice(["Ready", "Not Ready", "Not Connected"]) for s in present}
+    table = device_table(rng, T, ["SYS"] + present, p_answer=rng.choice([0.3, 0.8, 1.0]))
+    unsol = []
+    for _ in range(rng.randint(0, 5)):
+        s = rng.choice(["MAIN", "SYS"] + present)
+        unsol.append([round(rng.uniform(0.0, 8.0), 3), rng.choice([f"@{s}:PWR=On", f"@{s}:VOL=-{rng.randint(10, 60)}.5", "@RESTRICTED", f"@{s}:INP=HDMI{rng.randint(1, 4)}", "@MAIN:SLEEP=Off"])])
+    dev = {"type": "scripted", "latency": rng.choice([0.0, 0.02, 0.06, 0.099, 0.15, 0.4]), "avail": avail, "table": table, "unsolicited": unsol, "echo_put": True}
+    if rng.random() < 0.3:
+        dev["latency"] = {"kind": "uniform", "lo": 0.0, "hi": rng.choice([0.1, 0.5, 1.5]), "seed": rng.randrange(10 ** 6)}
+    if rng.random() < 0.2:
+        dev["swallow_first"] = 1
+    if rng.random() < 0.3:
+        dev["chunk"] = rng.randrange(1, 10 ** 6)
+    return {"kind": "api_init", "device": dev, "after": [["dump"], ["close"]], "final_wait": 6, "present": present}
+
+
+def api_init_fault(rng, T, total_replies=None, total_bytes=None):
+    """C14 flavour: initialize() with a fault at a chosen position of the start-up dialogue"""
+    spec = api_init(rng, T)
+    present = spec["present"][:3]
+    spec["present"] = present
+    spec["device"]["avail"] = {s: "Ready" for s in present}
+    spec["device"]["table"] = device_table(rng, T, ["SYS"] + present, p_answer=0.6)
+    spec["device"].pop("unsolicited", None)
+    how = rng.choice(["silent", "eof", "open", "write"])
+    if how == "silent":
+        spec["device"]["silent_after"] = rng.randint(0, 120)
+    elif how == "eof":
+        spec["device"]["eof_after_bytes"] = rng.choice([0, 1, 5, 19, 20, 21, 40]) if rng.random() < 0.4 else rng.randint(0, 3000)
+    elif how == "open":
+        spec["open_fails"] = True
+    else:
+        spec["write_fault_after"] = rng.randint(0, 80)
+    spec["fault"] = how
+    spec["after"] = [["dump"], ["sleep", 5.0], ["close"]]
+    return spec
+
+
+def conn_check(rng):
+    """C17 flavour"""
+    zones = [z for z in ("MAIN", "ZONE2", "ZONE3", "ZONE4") if rng.random() < 0.5]
+    lat = rng.choice([0.0, 0.06, 0.099, 0.1, 0.101, 0.15, 0.4, 1.2, 1.4, 1.6, 3.0])
+    dev = {"type": "scripted", "latency": lat, "avail": {z: rng.choice(["Ready", "Not Ready"]) for z in zones}, "model": rng.choice(["RX-V473", "RX-A6A", "R-N500"])}
+    if rng.random() < 0.25:
+        dev["swallow_first"] = 1
+    r = rng.random()
+    if r < 0.1:
+        dev["model"] = None          # never answers MODELNAME
+    elif r < 0.2:
+        dev["eof_after_bytes"] = rng.randint(0, 80)
+    elif r < 0.25:
+        dev["silent_after"] = rng.randint(0, 4)
+    spec = {"kind": "conn_check", "device": dev, "zones": zones, "final_wait": 6}
+    if rng.random() < 0.05:
+        spec["open_fails"] = True
+    return spec
+
+
+def subunit_init(rng, T):
+    """C06 flavour: one subunit's initialize() on a live connection"""
+    c = rng.choice(T["classes"])
+    table = device_table(rng, T, [c["id"]], p_answer=rng.choice([0.0, 0.5, 1.0]))
+    unsol = []
+    for _ in range(rng.randint(0, 4)):
+        f = rng.choice(c["fns"])
+        unsol.append([round(rng.uniform(0.0, 4.0), 3), f"@{c['id']}:{f['name']}={_value_for(rng, T, f)}"])
+    lat = rng.choice([0.0, 0.02, 0.099, 0.15, 0.4])
+    dev = {"type": "scripted", "latency": lat, "table": table, "unsolicited": unsol, "avail": {c["id"]: "Ready"}}
+    if rng.random() < 0.25:
+        dev["latency"] = {"kind": "uniform", "lo": 0.0, "hi": rng.choice([0.2, 1.0]), "seed": rng.randrange(10 ** 6)}
+    r = rng.random()
+    if r < 0.15:
+        dev["version"] = None        # the sync query is never answered
+    elif r < 0.25:
+        dev["silent_after"] = rng.randint(2, 12)
+    return {"kind": "subunit", "class": c["py"], "device": dev}
